@@ -62,7 +62,7 @@ def cipher_units(scheme, sch, edb):
     return out
 
 
-def run_case(scheme, cid, cfg, cls, db, acc, rng):
+def run_case(scheme, cid, cfg, cls, db, acc, rng, fresh_object=False):
     short = gen.SHORT[scheme]
     L = sse.loader(scheme)
     case = sse.case_desc(scheme, cid, cfg, cls, db)
@@ -80,7 +80,7 @@ def run_case(scheme, cid, cfg, cls, db, acc, rng):
         edb1 = sch.EDBSetup(key, copy.deepcopy(db))
         if reseed is not None:
             global_random.seed(reseed)
-        how = rng.random()
+        how = 0.99 if fresh_object else rng.random()
         if how < 0.12:
             # the second build runs in another thread of the process (after the first has finished)
             import threading
@@ -99,6 +99,14 @@ def run_case(scheme, cid, cfg, cls, db, acc, rng):
                 edb2 = sch.EDBSetup(key, copy.deepcopy(db))
             variant = ":after-idle-time"
             acc.count("second_build_after_idle_time")
+        elif how < 0.45 or fresh_object:
+            # ... or by ANOTHER scheme object built from the same configuration, with the key reloaded from its bytes
+            # (a client that was restarted, a scheme constructed per call)
+            sch2 = L.SSEScheme(copy.deepcopy(cfg))
+            key2 = L.SSEKey.deserialize(key.serialize(), L.SSEConfig(copy.deepcopy(cfg)))
+            edb2 = sch2.EDBSetup(key2, copy.deepcopy(db))
+            variant = ":fresh-scheme-object"
+            acc.count("second_build_by_a_fresh_scheme_object")
         else:
             edb2 = sch.EDBSetup(key, copy.deepcopy(db))
             variant = ""
@@ -234,6 +242,13 @@ def run_forked(scheme, acc, ctx, rounds):
             return
 
 
+BIG_BLOCKS = {
+    "CJJ14.PiPack": [({"param_B": 1024}, [2100, 1024, 3]), ({"param_B": 512, "param_identifier_size": 16}, [600, 512, 5])],
+    "CJJ14.PiPtr": [({"param_B": 1024, "param_b": 4}, [2100, 1024, 3]), ({"param_B": 512, "param_b": 2048}, [1500, 2])],
+    "CJJ14.Pi2Lev": [({"param_B": 1024, "param_b": 1024, "param_B_prime": 1024, "param_b_prime": 1024}, [2100, 1024, 3])],
+}
+
+
 def run_twins(scheme, acc, ctx, rounds):
     """Two fresh interpreters that agree on the wall-clock second, process id, hash seed and environment (vlib.twin)
     build the index of the same (key, database)."""
@@ -282,6 +297,18 @@ def run_shard(spec, acc, ctx):
         run_forked(scheme, acc, ctx, 3 if ctx.tier == "quick" else 25)
     if scheme != "CGKO06.SSE2" and spec["index"] == 1:
         run_twins(scheme, acc, ctx, 2 if ctx.tier == "quick" else 12)
+    if spec["index"] == 0 and scheme in BIG_BLOCKS:
+        # blocks of several KiB (one AES message each), both builds by fresh scheme objects
+        for over, lens in BIG_BLOCKS[scheme]:
+            cfg = gen.default_config(scheme)
+            cfg.update(over)
+            try:
+                db, info = gen.db_from_lens(rng, scheme, cfg, list(lens), "big-blocks", kw_min=8, kw_max=16)
+            except ValueError as e:
+                acc.note(f"big-blocks {scheme}: {e}")
+                continue
+            acc.count("big_block_cases")
+            run_case(scheme, "big-blocks", cfg, "big-blocks", db, acc, rng, fresh_object=True)
     while not ctx.out_of_time():
         cid, cfg = gen.pick_config(scheme, rng, i)
         i += spec["of"]
@@ -359,6 +386,8 @@ def finish(m, tier, seed):
             inc.append(f"{short}: only {per[short]['cases']} cases")
     if c.get("entries_compared_within", 0) < 10 ** 4:
         inc.append(f"only {c.get('entries_compared_within', 0)} ciphertext entries compared")
+    if c.get("second_build_by_a_fresh_scheme_object", 0) < 200 or c.get("big_block_cases", 0) < 4:
+        inc.append("too few second builds by a fresh scheme object / big-block cases")
     if c.get("twin_build_pairs", 0) < 8:
         inc.append("fewer than 8 pairs of twin interpreters built an index")
     if c.get("forked_build_pairs", 0) < 8 or c.get("builds_after_reseeding_global_random", 0) < 200:
